@@ -297,7 +297,7 @@ func genParse(g *Gen) {
 		p.allCuts("-", "("+a+" "+a+")", len(a) < 6)
 		p.allCuts("-", "{"+a+"}", false)
 	}
-	N := 500
+	N := 300
 	if g.Thorough() {
 		N = 12000
 	}
